@@ -163,7 +163,7 @@ func (r *Rec) at(proc, label string, args ...interface{}) {
 		return
 	}
 	if ev.L == "co_err" || (ev.L == "co_sel" && ev.Kind == "err") {
-		// a consumer that spins after its error channel was closed (D19): three rounds are evidence enough
+		// a consumer that spins after its error channel was closed (D26): three rounds are evidence enough
 		k := fmt.Sprintf("spin:%d:%s", ev.P, ev.L)
 		r.Counts[k]++
 		if r.Counts[k] > 3 {
